@@ -85,6 +85,16 @@ Theorem C09_time_roundtrip_refuted :
   time_unmarshal b = Some (mk_time 63835596800 0 (Some 226%Z)).
 Proof. exact time_roundtrip_gap. Qed.
 
+(* a signature survives its wire image for ALL r, s < 2^256 (Sign.Bytes() left-pads each 32-byte word), recid kept *)
+Theorem C09_sign_roundtrip : forall r s v, (r < 2 ^ 256)%N -> (s < 2 ^ 256)%N -> to_sign (sign_bytes (r, s, v)) = Some (r, s, v).
+Proof. exact sign_roundtrip. Qed.
+
+(* right-padding the words instead is a different image as soon as r has a leading zero byte *)
+Theorem C09_sign_right_pad_refuted :
+  to_sign (sign_bytes (1, 2, 0)%N) = Some (1, 2, 0)%N /\
+  to_sign ((1 :: repeat 0 31) ++ (2 :: repeat 0 31) ++ [0])%N <> Some (1, 2, 0)%N.
+Proof. exact sign_left_pad_matters. Qed.
+
 Section JsonRT.
 Variable SubT : Type.
 Variable sub_enc : SubT -> bytes.
@@ -130,12 +140,12 @@ Hypothesis sub_nil_ok : sub_dec (sub_enc sub_nil) = sub_nil.
 Hypothesis req_idem : forall b, req_dec (req_enc (req_dec b)) = req_dec b.
 Hypothesis req_nil_ok : req_dec (req_enc req_nil) = req_nil.
 
-Theorem C09_tx_fixed_point : forall p t, tx_of_pb_body SubT sub_dec sub_nil Gen.sites p = Ok t ->
+Theorem C09_tx_fixed_point : forall p t, bytes_ok (ob p.(p_Sign)) -> tx_of_pb_body SubT sub_dec sub_nil Gen.sites p = Ok t ->
   let t1 := tx_wire_view SubT t in
   tx_of_pb_body SubT sub_dec sub_nil Gen.sites (tx_to_pb SubT sub_enc t) = Ok t1 /\
   tx_of_pb_body SubT sub_dec sub_nil Gen.sites (tx_to_pb SubT sub_enc t1) = Ok t1.
 Proof.
-  intros p t E. pose proof (tx_of_pb_wf SubT sub_enc sub_dec sub_nil Gen.sites p t sub_idem sub_nil_ok E) as W.
+  intros p t BS E. pose proof (tx_of_pb_wf SubT sub_enc sub_dec sub_nil Gen.sites p t sub_idem sub_nil_ok BS E) as W.
   split; [apply (tx_roundtrip SubT sub_enc sub_dec sub_nil Gen.sites t eq_refl W)|].
   apply (tx_roundtrip SubT sub_enc sub_dec sub_nil Gen.sites (tx_wire_view SubT t) eq_refl W).
 Qed.
@@ -211,7 +221,7 @@ Example C09_example :
   hdr_wf bytes (fun b => b) (fun b => b) h /\
   (exists p, hdr_to_pb bytes (fun b => b) h = Some p /\
              hdr_of_pb_body bytes (fun b => b) [110;117;108;108]%N Gen.sites Gen.recvs p = Ok (Some h)) /\
-  tx_wf bytes (fun b => b) (fun b => b) (mk_tx bytes [1%N] [] 1 [] [] [] 0 [91;93]%N h32 h32 (Some (repeat 1%N 65)) 1 2 [5%N] []).
+  tx_wf bytes (fun b => b) (fun b => b) (mk_tx bytes [1%N] [] 1 [] [] [] 0 [91;93]%N h32 h32 (Some (0, 255, 27)%N) 1 2 [5%N] []).
 Proof.
   cbv zeta.
   assert (W : hdr_wf bytes (fun b => b) (fun b => b)
@@ -332,7 +342,8 @@ Theorem C09_group_bytes_roundtrip : forall g p b, group_wf g -> group_to_pb g = 
 Proof. exact group_bytes_roundtrip. Qed.
 
 (* one audit of everything above: the tuple of all property theorems *)
-Definition C09_all_theorems := (@C09_tx_total,
+Definition C09_all_theorems := (@C09_sign_roundtrip, @C09_sign_right_pad_refuted,
+  @C09_tx_total,
   @C09_txs_total,
   @C09_header_total,
   @C09_block_total,
